@@ -98,6 +98,8 @@ def gen_case(run_seed: int, tier: str, index: int = 0) -> dict:
             step["early_stop"] = r.random() < 0.6
         if p in BOUNDARY and r.random() < 0.4:
             step["fault"] = {"exc": r.choice(list(EXCS))}
+        # a pass may be handed the PassResult of the previous pass instead of the model (chaining form)
+        step["via_result"] = Streams(run_seed).rng(f"via-result-{len(schedule)}").random() < 0.2
         schedule.append(step)
     return {"property": PROPERTY, "run_seed": run_seed, "model_seed": r.randrange(1 << 30), "params": params, "schedule": schedule}
 
@@ -324,7 +326,11 @@ def run_case(case: dict) -> dict:
             result = None
             raised = None
             try:
-                result = p(model)
+                if step.get("via_result"):
+                    inc("called_with_pass_result")
+                    result = p(ir.passes.PassResult(model, modified=bool(si % 2)))
+                else:
+                    result = p(model)
                 rounds = 1
             except Exception as e:  # noqa: BLE001
                 raised = e
